@@ -170,14 +170,12 @@ Proof.
   set (fuel := Z.to_nat (e_hi c - e_lo e)) in *.
   set (cs := windows fuel (sofar ++ evs c) bsz stp (e_lo e) (e_hi c)) in *.
   destruct (final_lo_spec (e_hi c) fuel (e_lo e)) as [Hf1 Hf2]; [unfold fuel; lia|].
-  assert (Hinv3 : forall k, er_inv e' (s2 + 2 * k) (sofar ++ evs c) (cnts ++ cs) -> zlen cs = k -> True) by auto.
   assert (Hnew : er_inv e' (s2 + 2 * zlen cs) (sofar ++ evs c) (cnts ++ cs)).
   { split; [exact Hinv'|]. split; [lia|]. split; [lia|]. split; [rewrite zlen_app; lia|].
-    intros new hi' f Hh Hn Hf. rewrite Hhi in *. rewrite <- app_assoc.
+    intros new hi' f Hh Hn Hf. rewrite Hhi in *. rewrite <- (app_assoc sofar).
     rewrite (Hwin (evs c ++ new) hi' f); [|lia| |exact Hf].
-    - rewrite app_assoc.
+    - rewrite <- (app_assoc cnts). f_equal. rewrite (app_assoc sofar).
       rewrite (windows_continue (sofar ++ evs c) new (e_hi c) hi' Hh Hn f (e_lo e)) by lia.
-      rewrite <- app_assoc. f_equal.
       destruct (windows_fuel (sofar ++ evs c) (e_hi c) f fuel (e_lo e)) as [W1 W2];
         [lia|unfold fuel; lia|].
       rewrite W1, W2, Hlo'. reflexivity.
@@ -186,7 +184,7 @@ Proof.
       + eapply Forall_impl; [|exact Hn]. cbn beta. intros; lia. }
   destruct cs as [|c0 cs'] eqn:Ecs.
   - exists e', s2, []. split; [reflexivity|]. cbn [map concat r_contiguous].
-    rewrite zlen_nil, Z.mul_0_r, Z.add_0_r in Hnew. rewrite app_nil_r in *. auto.
+    change (zlen (@nil Z)) with 0 in Hnew. rewrite Z.mul_0_r, Z.add_0_r in Hnew. rewrite app_nil_r in *. auto.
   - exists e', (s2 + 2 * zlen (c0 :: cs')), [Rb (c0 :: cs') s2 stp]. split; [reflexivity|].
     cbn [map concat r_counts r_contiguous r_s0x2 r_fsd]. rewrite app_nil_r. auto.
 Qed.
@@ -227,7 +225,7 @@ Proof.
     unfold er_step, combine_events. cbn [er_ev er_s0x2 e_lo e_hi evs app]. now rewrite Z.eqb_refl. }
   assert (Hinv0 : er_inv (Ev [] lo0 lo0) (2 * lo0 + bsz) [] []).
   { split; [split; [reflexivity|constructor]|]. cbn [e_lo e_hi]. split; [lia|]. split; [lia|].
-    split; [rewrite zlen_nil; lia|]. intros; reflexivity. }
+    split; [change (zlen (@nil Z)) with 0; lia|]. intros; reflexivity. }
   destruct (er_run_ok (c :: cs) (Ev [] lo0 lo0) (2 * lo0 + bsz) [] [] Hinv0 Hst)
     as (e' & s2' & o & E & Hinv & Hc & Hh).
   exists (Some (ErSt e' s2')), o. split; [|split; [|exact Hc]].
